@@ -197,3 +197,71 @@ Proof.
     destruct (stdout_hidden _ _ _), (stderr_hidden _ _ _);
     rewrite ?W, ?inc_capture; cbn [List.concat app]; rewrite ?text_eqb_refl; reflexivity.
 Qed.
+
+(** * Shape of the repaired loop: pieces, mirror, submissions *)
+
+Lemma emit_eq (hide : bool) (d : text) (buf : list text) (o : loop_out) (ps : list text) :
+  o = mkLoop ((buf ++ [d]) ++ ps) (if hide then [] else ps) (growing (buf ++ [d]) ps) ->
+  emit hide d buf o = mkLoop (buf ++ d :: ps) (if hide then [] else d :: ps) (growing buf (d :: ps)).
+Proof.
+  intros ->. unfold emit. cbn [lo_buf lo_writes lo_submits growing].
+  rewrite <- app_assoc. cbn [app]. destruct hide; reflexivity.
+Qed.
+
+Lemma handle_output_inc_shape e hide script : forall st buf,
+  exists ps, handle_output_inc e hide st script buf =
+             mkLoop (buf ++ ps) (if hide then [] else ps) (growing buf ps).
+Proof.
+  assert (F : forall st buf, exists ps, finish_inc hide st buf =
+                             mkLoop (buf ++ ps) (if hide then [] else ps) (growing buf ps)).
+  { intros st buf. unfold finish_inc. destruct st; cbn [dflush].
+    - exists []. rewrite app_nil_r. destruct hide; reflexivity.
+    - exists (cons (cons REPL nil) nil). rewrite (emit_eq hide (cons REPL nil) buf _ nil).
+      + reflexivity.
+      + rewrite app_nil_r. destruct hide; reflexivity. }
+  induction script as [|ev r IH]; intros st buf.
+  - apply F.
+  - destruct ev as [bs|]; [destruct bs as [|b bs']|].
+    + apply F.
+    + cbn [handle_output_inc]. destruct (snd (drun e st (b :: bs'))) as [|x xs] eqn:S.
+      * apply IH.
+      * destruct (IH (fst (drun e st (b :: bs'))) (buf ++ [x :: xs])) as [ps Hps].
+        exists ((x :: xs) :: ps). rewrite Hps. apply emit_eq. reflexivity.
+    + apply IH.
+Qed.
+
+(** the repaired loop looks at the reads only, never at where the exit falls *)
+Lemma inc_by_chunks e hide script : forall st buf,
+  handle_output_inc e hide st script buf =
+  handle_output_inc e hide st (map RChunk (chunks_of script)) buf.
+Proof.
+  induction script as [|ev r IH]; intros st buf; [reflexivity|].
+  destruct ev as [bs|]; [destruct bs as [|b bs']|].
+  - reflexivity.
+  - cbn [chunks_of map handle_output_inc]. destruct (snd (drun e st (b :: bs'))).
+    + apply IH.
+    + rewrite IH. reflexivity.
+  - cbn [chunks_of handle_output_inc]. apply IH.
+Qed.
+
+Lemma inc_exit_irrelevant e hide st s1 s2 buf :
+  chunks_of s1 = chunks_of s2 ->
+  handle_output_inc e hide st s1 buf = handle_output_inc e hide st s2 buf.
+Proof. intros H. rewrite (inc_by_chunks e hide s1), (inc_by_chunks e hide s2), H. reflexivity. Qed.
+
+Lemma inc_capture_all e hide script :
+  List.concat (lo_buf (handle_output_inc e hide DInit script [])) = decode_all e (stream_bytes script).
+Proof. rewrite inc_capture. reflexivity. Qed.
+
+Lemma inc_mirror_equals_capture e script :
+  lo_writes (handle_output_inc e false DInit script []) = lo_buf (handle_output_inc e false DInit script []).
+Proof. destruct (handle_output_inc_shape e false script DInit []) as [ps ->]. reflexivity. Qed.
+
+Lemma inc_submits_growing e hide script :
+  lo_submits (handle_output_inc e hide DInit script []) =
+  growing [] (lo_buf (handle_output_inc e hide DInit script [])).
+Proof. destruct (handle_output_inc_shape e hide script DInit []) as [ps ->]. reflexivity. Qed.
+
+(** old per-read loop, kept for the historical record *)
+Lemma legacy_run_refuted : exists i, spec_in i (run_model i) = false.
+Proof. exact run_meets_spec_refuted. Qed.
